@@ -241,6 +241,9 @@ func executeOnce(t *testing.T, spec RunSpec) (res *RunResult) {
 		if s.Stats.Starved > 0 {
 			res.Faults["task-starve"] += s.Stats.Starved
 		}
+		if s.Stats.Stalled > 0 {
+			res.Faults["task-stall"] += s.Stats.Stalled
+		}
 		if s.Stats.ClockJumps > 0 {
 			res.Faults["spin-guard-jump"] += s.Stats.ClockJumps
 		}
